@@ -145,6 +145,10 @@ def adversarial_stream(rnd):
     return bytes(out)
 
 
+class ReadBudgetExceeded(BaseException):
+    """The reader keeps calling read() on an exhausted finite stream: non-termination (C04)."""
+
+
 class FaultyStream:
     """Recording / fault-injecting double: each read may be cut short according to `cuts`
     (a list of ints; cut k is the maximum number of bytes read call k may return; None = no cut)."""
@@ -159,6 +163,8 @@ class FaultyStream:
     def _limit(self, n):
         c = self.cuts[self.calls] if self.calls < len(self.cuts) else None
         self.calls += 1
+        if self.calls > 50 * len(self.data) + 2000:
+            raise ReadBudgetExceeded(f"{self.calls} stream reads for {len(self.data)} bytes")
         return n if c is None else min(n, c)
 
     def read(self, n):
